@@ -34,7 +34,7 @@ pub fn slice_reader_matches_std() {
             (Ok(a), Ok(b)) => assert!(a == b, "C13: read_volatile on &[u8] returns a different count than std::io::Read"),
             _ => assert!(false, "C13: read on &[u8] never fails in std"),
         }
-        assert!(r_v.len() == r_s.len(), "C13: remaining stream differs from std after read");
+        assert!(r_v.len() == r_s.len(), "C13,C03: remaining stream differs from std after read (a chunked guest transfer would re-read or skip bytes)");
         let mut i = 0;
         while i < M {
             if i < bl { assert!(mem[i] == twin[i], "C13,C04: bytes landed differ from std::io::Read"); }
@@ -60,7 +60,7 @@ pub fn slice_reader_exact_matches_std() {
     let got_s = r_s.read_exact(&mut twin[..bl]);
     match (&got_v, &got_s) {
         (Ok(()), Ok(())) => {
-            assert!(r_v.len() == r_s.len(), "C13: remaining stream differs from std after read_exact");
+            assert!(r_v.len() == r_s.len(), "C13,C03: remaining stream differs from std after read_exact");
             let mut i = 0;
             while i < M { assert!(mem[i] == twin[i], "C13,C04: bytes landed differ from std read_exact"); i += 1; }
         }
@@ -100,7 +100,7 @@ pub fn slice_writer_matches_std() {
                     _ => assert!(false, "C13: write on &mut [u8] never fails in std"),
                 }
             }
-            assert!(w_v.len() == w_s.len(), "C13: remaining sink differs from std after write");
+            assert!(w_v.len() == w_s.len(), "C13,C03: remaining sink differs from std after write");
         }
     }
     let mut i = 0;
